@@ -72,7 +72,7 @@ def _fresh_int(an, st, ty, sid, itv):
     return v
 
 
-LEN = r"(core::slice::<impl \[T\]>::len|std::vec::Vec::<T, A>::len|core::str::<impl str>::len|std::str::<impl str>::len|smallvec::SmallVec::<A>::len|std::string::String::len|VecDeque::<T, A>::len|core::array::<impl \[T; N\]>::len)$"
+LEN = r"(view::flex::FlexArray::len|core::slice::<impl \[T\]>::len|std::vec::Vec::<T, A>::len|core::str::<impl str>::len|std::str::<impl str>::len|smallvec::SmallVec::<A>::len|std::string::String::len|VecDeque::<T, A>::len|core::array::<impl \[T; N\]>::len)$"
 IS_EMPTY = r"(core::slice::<impl \[T\]>::is_empty|std::vec::Vec::<T, A>::is_empty|<impl str>::is_empty|smallvec::SmallVec::<A>::is_empty|std::string::String::is_empty)$"
 DEREF_LIKE = (r"(<smallvec::SmallVec<A> as std::ops::Deref(Mut)?>::deref(_mut)?|<std::vec::Vec<T, A> as std::ops::Deref(Mut)?>::deref(_mut)?|"
               r"std::vec::Vec::<T, A>::as_(mut_)?slice|smallvec::SmallVec::<A>::as_(mut_)?slice|<impl str>::as_bytes|std::string::String::as_(bytes|str)|"
@@ -422,6 +422,21 @@ def apply(an, st, t, args, dkey, dty, sid):
             if s_ is not None and e_ is not None:
                 v.cond = ("And", ("Ge", x, s_), ("Lt", x, e_))
         _set(an, st, dkey, v)
+        return HANDLED
+    # ---- surface::ViewBounds::view_bounds: Some((s, e)) => s < e <= size   (postcondition proven by check C08) ---------------------
+    if m(r"^surface::ViewBounds::view_bounds$|as surface::ViewBounds>::view_bounds$") and len(args) == 2:
+        st.kill_prefix(dkey)
+        ssid, esid = sid + "#s", sid + "#e"
+        szi = st.itv(args[1])
+        hi = szi[1] if szi[1] != INF else (1 << 63) - 1
+        st.syms[ssid] = (0, max(hi - 1, 0))
+        st.syms[esid] = (1, hi)
+        st.diffs[(ssid, esid)] = -1
+        tsz = st.term(args[1])
+        if tsz is not None and tsz[0] == "s":
+            st.diffs[(esid, tsz[1])] = tsz[2]
+        st.vals["(%s as Some).0.0" % dkey] = V(ty="usize", sym=(ssid, 0))
+        st.vals["(%s as Some).0.1" % dkey] = V(ty="usize", sym=(esid, 0))
         return HANDLED
     # ---- std::io::Read contract: Ok(n) => n <= buf.len() --------------------------------------------------------------------------
     if m(r"^std::io::Read::read$|as std::io::Read>::read$") and len(args) == 2:
